@@ -115,6 +115,14 @@ pub fn run(ctx: &Ctx) {
                 script.push_str(&format!("./p{}/{name} e; echo \"st=$?\"\n", k + 1));
                 expect.push_str(&format!("ran-p{} e\nst={st}\n", k + 1));
             }
+            // a name with a slash whose prefix is a regular file: nothing to execute, not found (127;
+            // the project documents 127 for both ENOENT and ENOTDIR)
+            if let Some(k) = (0..3).find(|k| matches!(entries[*k], Entry::Script(_) | Entry::NotExecutable)) {
+                script.push_str(&format!("./p{}/{name}/sub f; echo \"st=$?\"\n", k + 1));
+                expect.push_str("st=127\n");
+            }
+            script.push_str("./p1/missing/sub; echo \"st=$?\"\n");
+            expect.push_str("st=127\n");
             let exe = std::env::current_exe().unwrap();
             let path = format!("{0}/p1:{0}/p2:{0}/p3:/bin:/usr/bin", dir.display());
             let guard = SPAWN_LOCK.lock().unwrap();
